@@ -170,7 +170,7 @@ typedef struct cstate {
     uint64_t now_ms;
     uint64_t am_last, ae_last, as_last; uint8_t am_cs, ae_cs, as_cs;
     band_state band; mapping_state ms;
-    session_entry ent[4]; uint8_t count, all_complete;
+    session_entry ent[4]; uint8_t slot[4], nent; uint8_t count, all_complete;       /* the (at most four) live entries with their slot numbers: independent of which slots the table uses */
     uint64_t last_hello_tx; uint32_t hello_calls;
     uint64_t mon_last; uint8_t mon_any; uint64_t mon_frame; uint8_t mon_frame_any;
     uint8_t rm_present[4], rm_complete[4]; uint64_t rm_last[4];
@@ -183,8 +183,11 @@ static void save(uint8_t *buf) {
     c.ae_last = D.enumerationAutomata->last_ts; c.ae_cs = D.enumerationAutomata->current_state;
     c.as_last = D.sessionAutomata->last_ts; c.as_cs = D.sessionAutomata->current_state;
     c.band = *(band_state *)D.enumerationAutomata->extra; c.ms = *(mapping_state *)D.mappingAutomata->extra;
-    memcpy(c.ent, D.sessionTable->entries, sizeof c.ent); c.count = D.sessionTable->count; c.all_complete = D.sessionTable->all_complete;
-    for (int i = 4; i < SESSION_TABLE_MAX_ENTRIES; i++) if (D.sessionTable->entries[i].valid) vf_harness_error("C12: more than four table slots in use");
+    for (int i = 0; i < SESSION_TABLE_MAX_ENTRIES; i++) if (D.sessionTable->entries[i].valid) {
+        if (c.nent >= 4) vf_harness_error("C12: more than four live table entries");
+        c.ent[c.nent] = D.sessionTable->entries[i]; c.slot[c.nent] = (uint8_t)i; c.nent++;
+    }
+    c.count = D.sessionTable->count; c.all_complete = D.sessionTable->all_complete;
     c.last_hello_tx = D.LastHelloTxMs; c.hello_calls = D.hello_calls;
     c.mon_last = MON.last_send_ms; c.mon_any = MON.sent_any; c.mon_frame = MON.last_frame_ms; c.mon_frame_any = MON.frame_any;
     memcpy(c.rm_present, RM.present, 4); memcpy(c.rm_complete, RM.complete, 4); memcpy(c.rm_last, RM.last_s, sizeof c.rm_last);
@@ -197,7 +200,9 @@ static void restore(const uint8_t *buf) {
     D.enumerationAutomata->last_ts = c.ae_last; D.enumerationAutomata->current_state = c.ae_cs;
     D.sessionAutomata->last_ts = c.as_last; D.sessionAutomata->current_state = c.as_cs;
     *(band_state *)D.enumerationAutomata->extra = c.band; *(mapping_state *)D.mappingAutomata->extra = c.ms;
-    memcpy(D.sessionTable->entries, c.ent, sizeof c.ent); D.sessionTable->count = c.count; D.sessionTable->all_complete = c.all_complete;
+    memset(D.sessionTable->entries, 0, sizeof D.sessionTable->entries);
+    for (int i = 0; i < c.nent; i++) D.sessionTable->entries[c.slot[i]] = c.ent[i];
+    D.sessionTable->count = c.count; D.sessionTable->all_complete = c.all_complete;
     D.LastHelloTxMs = c.last_hello_tx; D.hello_calls = c.hello_calls;
     MON.last_send_ms = c.mon_last; MON.sent_any = c.mon_any; MON.last_frame_ms = c.mon_frame; MON.frame_any = c.mon_frame_any;
     memcpy(RM.present, c.rm_present, 4); memcpy(RM.complete, c.rm_complete, 4); memcpy(RM.last_s, c.rm_last, sizeof c.rm_last);
@@ -222,10 +227,10 @@ static size_t key(uint8_t *out, size_t cap) {
     PUT(MON.frame_any ? -relclamp(MON.last_frame_ms, now, -30000, 0) : 99999);
     for (int k = 0; k < 4; k++) { PUT(RM.present[k]); if (RM.present[k]) { PUT(RM.complete[k]); PUT(-relclamp(RM.last_s[k], ns, -61, 0)); } }
     PUT(D.sessionTable->count); PUT(D.sessionTable->all_complete);
-    for (int i = 0; i < 4; i++) {
+    for (int i = 0; i < SESSION_TABLE_MAX_ENTRIES; i++) {
         session_entry *e = &D.sessionTable->entries[i];
-        PUT(e->valid);
         if (!e->valid) continue;
+        PUT(i);
         PUT(e->mapper_mac[0] * 256 + e->mapper_mac[5]); PUT(e->generation); PUT(e->seq_number); PUT(e->complete); PUT(e->state);
         PUT(-relclamp(e->last_activity_ts, ns, -61, 0));
     }
